@@ -48,9 +48,13 @@ def run(rep):
         elif kind == 'mass':
             A = max(A, 2)
             nx = int(rng.integers(1, A))
-            species = ['Li'] * nx + [str(rng.choice(['S', 'Mg']))] * (A - nx)
+            # incl. isotopes: pymatgen gives D and T the element symbol 'H' but their own mass -- the weight is the mass of the atom
+            mv, st = [('Li', 'S'), ('Li', 'Mg'), ('D', 'T'), ('H', 'D'), ('T', 'H'), ('D', 'O'), ('O', 'T')][int(rng.integers(0, 7))]
+            species = [mv] * nx + [st] * (A - nx)
             m = [1] * nx + [0] * (A - nx)
             w = md.make_walk(rng, T, A, identical=True, static_from=nx)
+            if rng.random() < 0.5:                  # which species comes first in the atom order varies
+                species, m, w = species[::-1], m[::-1], np.ascontiguousarray(w[:, ::-1, :])
         elif kind == 'onedim':
             w = md.make_walk(rng, T, A, onedim=True)
         else:
@@ -108,7 +112,7 @@ def run(rep):
         masses = [float(Element(s).atomic_mass) for s in species]
         if kind == 'mass':
             nx = sum(m)
-            corr = (sum(masses) / (masses[0])) ** 2          # alpha removes the mass ratio: COM walk = (m_X n_X / M) w_X
+            corr = (sum(masses) / (masses[m.index(1)])) ** 2          # alpha removes the mass ratio: COM walk = (m_X n_X / M) w_X
             if not md.close(Dcom / unit * corr, e['com'], rel=1e-9):
                 bad.append(('centre-of-mass-diffusivity-mass-weighting', Dcom, e['com'], nx))
         else:
